@@ -22,6 +22,12 @@ CLAIMED["C17"] = ("other",
     "Trusted: go-diameter v3.0.2 Marshal/Unmarshal/FindAVP/Load semantics as read in its source; encoding/xml. Not decided: wire serialisation of each datatype; the values callers put in the fields.",
     "DESIGN.md §4 C17")
 
+CLAIMED["C12"] = ("other",
+    "dominance / must-pass-through rules on go/ssa: constants under success edges, validate-before-effect over a call-graph effect set, dependence slices for echo/URI/notification arguments",
+    "Decides named structural clauses of the contract for every execution of the handlers: status constants 201/200/204 and Location on the success edge, Location tail is the session-map key, sequence-number echo and timestamp dominate success returns, the absent-subscriber and absent-session edges return 4xx without reaching any effect while the present edge dominates every effect (effect set = account/rating requests, record and reservation writes, file dump, CDR transfer, closed under callers), exactly one recharge notification to the registered URI naming the rating group, every problem status a 4xx constant. It does not execute requests, so 'no effect' is a must-not-reach statement over the CFG and call graph, not a state comparison.",
+    "Trusted: gin writers send the status given; effect set of DESIGN Appendix A2 is complete (checked: every write to a ChfUe accounting cell is found by type). Not decided: body contents beyond echoed members; recharge for unknown subscriber (not demanded).",
+    "DESIGN.md §4 C12")
+
 # id -> reason, for properties not (yet) claimed
 NOT_APPLICABLE = {
 }
